@@ -354,8 +354,11 @@ def mask_password(message, secret="***"):  # nosec
         # byte string. A better solution will be provided in Kilo.
         pass
 
-    substitute1 = r'\g<1>' + secret
-    substitute2 = r'\g<1>' + secret + r'\g<2>'
+    # The secret is inserted literally: it must not be interpreted as a
+    # replacement template (backslash escapes, group references).
+    escaped_secret = secret.replace('\\', r'\\')
+    substitute1 = r'\g<1>' + escaped_secret
+    substitute2 = r'\g<1>' + escaped_secret + r'\g<2>'
     substitute_wildcard = r'\g<1>'
 
     # NOTE(ldbragst): Check to see if anything in message contains any key
